@@ -69,8 +69,8 @@ static int do_open(char const* path, int flags, mode_t mode, int dirfd)
     {
         strncpy(fd_path[fd], base(path), 255);
         char b[512];
-        snprintf(b, sizeof b, "{\"e\":\"Open\",\"path\":\"%s\",\"fd\":%d,\"trunc\":%d,\"creat\":%d,\"wr\":%d,\"n\":%ld}\n", base(path), fd,
-            (flags & O_TRUNC) ? 1 : 0, (flags & O_CREAT) ? 1 : 0, (flags & (O_WRONLY | O_RDWR)) ? 1 : 0, counter);
+        snprintf(b, sizeof b, "{\"e\":\"Open\",\"path\":\"%s\",\"fd\":%d,\"trunc\":%d,\"creat\":%d,\"wr\":%d,\"n\":%ld,\"tid\":%ld}\n", base(path), fd,
+            (flags & O_TRUNC) ? 1 : 0, (flags & O_CREAT) ? 1 : 0, (flags & (O_WRONLY | O_RDWR)) ? 1 : 0, counter, (long) syscall(SYS_gettid));
         logline(b);
     }
     if (w && k) die();
